@@ -1,5 +1,5 @@
 """C15 — RTP/RTCP encode/decode agree on their dispatch tables and match the RFC numbers (thin claim)."""
-from engine import core, mir
+from engine import core, mir, layout
 from engine.core import RuleResult, suffix
 
 EXPLANATION = (
@@ -160,5 +160,97 @@ def r15_4(ctx):
     return r
 
 
+LAYOUT_PAIRS = [
+    ("rtp::parse_sender_report", "rtp::build_sender_report_body"),
+    ("rtp::parse_receiver_report", "rtp::build_receiver_report_body"),
+    ("rtp::parse_report_block", "rtp::build_report_block"),
+    ("rtp::parse_psfb_common", "rtp::build_psfb_common"),
+    ("rtp::parse_fir_body", "rtp::build_fir_body"),
+    ("rtp::parse_nack_body", "rtp::build_nack_body"),
+    ("rtp::parse_remb_body", "rtp::build_remb_body"),
+    ("rtp::parse_twcc_body", "rtp::build_twcc_body"),
+]
+def r15_5(ctx):
+    """sibling agreement (Engler/Min): for every RTCP body with a fixed-offset part, the byte positions the
+    parser reads a field from are the byte positions the marshaller writes that field to. Decides the layout of
+    the fixed part only (no loops, no bit packing inside a byte)."""
+    r = RuleResult("R15.5", "K6", "parser and marshaller agree on the byte positions of every fixed-offset RTCP field")
+    compared = layout.compare(r, core, ctx, LAYOUT_PAIRS, adt_prefix="rtp::")
+    r.need("fixed-offset fields compared", compared, 24)
+    return r
+
+
+def _range_of(t):
+    """(start, end_exclusive) of a constant Range / RangeInclusive iterated by `next`, found inside term t"""
+    for x in mir.walk(t):
+        if x[0] == "agg" and x[1].endswith("ops::Range") and len(x[3]) == 2 and x[3][0][0] == "const" and x[3][1][0] == "const":
+            return x, (x[3][0][1], x[3][1][1])
+        if x[0] == "call" and x[1].endswith("RangeInclusive::<Idx>::new") and len(x[2]) == 2 and x[2][0][0] == "const" and x[2][1][0] == "const":
+            return x, (x[2][0][1], x[2][1][1] + 1)
+    return None, None
+
+
+def _eval(t, elem_pred, v):
+    """evaluate a small integer term with the loop element bound to v (None if not evaluable)"""
+    if elem_pred(t):
+        return v
+    if t[0] == "const":
+        return t[1]
+    if t[0] == "cast":
+        return _eval(t[1], elem_pred, v)
+    if t[0] == "bin" and t[1] in ("Add", "Sub", "AddWithOverflow", "SubWithOverflow", "AddUnchecked", "SubUnchecked"):
+        a, c = _eval(t[2], elem_pred, v), _eval(t[3], elem_pred, v)
+        if a is None or c is None:
+            return None
+        return a + c if t[1].startswith("Add") else a - c
+    if t[0] == "field" and t[2] == "0":          # .0 of a checked-arithmetic pair
+        return _eval(t[1], elem_pred, v)
+    return None
+
+
+def r15_6(ctx):
+    """RFC 4585 6.2.1: the 16 bits of BLP flag the packets PID+1 .. PID+16, bit i (LSB = 0) standing for PID+i+1.
+    The parser must visit all 16 bits and pair bit i with offset i+1 (pack_nack_pairs sets bit diff-1 for diff
+    1..=16)."""
+    r = RuleResult("R15.6", "K6", "Generic NACK: the parser reads all 16 BLP bits, bit i meaning PID+i+1")
+    fn = "rtp::parse_nack_body"
+    b = ctx.body(fn)
+    r.scope.append(fn)
+    shifts = []
+    for bi, si, st in b.assigns():
+        rv = st["rv"]
+        if rv["r"] == "bin" and rv["op"] in ("Shr", "Shl", "ShrUnchecked", "ShlUnchecked"):
+            t = b.term_rvalue(rv)
+            rng_t, rng = _range_of(t[3])
+            if rng is not None:
+                shifts.append((bi, si, t[3], rng_t, rng))
+    adds = []
+    for bi, t, p in b.calls():
+        if p and p.endswith("::wrapping_add") and len(t["a"]) == 2:
+            a1 = b.term_operand(t["a"][1])
+            rng_t, rng = _range_of(a1)
+            if rng is not None:
+                adds.append((bi, a1, rng_t, rng))
+    r.need("BLP bit shifts driven by a constant range", len(shifts), 1)
+    r.need("PID offsets driven by the same range", len(adds), 1)
+
+    def elem(rng_t):
+        return lambda x: x[0] == "field" and x[2] == "0" and x[1][0] == "variant" and mir.has(x[1], lambda y: y == rng_t)
+    for bi, si, amt, rng_t, (lo, hi) in shifts:
+        bits = [_eval(amt, elem(rng_t), v) for v in range(lo, hi)]
+        offs = None
+        for abi, a1, art, arng in adds:
+            if art == rng_t:
+                offs = [_eval(a1, elem(rng_t), v) for v in range(lo, hi)]
+        if None in bits or offs is None or None in offs:
+            raise core.CheckerError("R15.6: cannot evaluate the BLP loop of parse_nack_body")
+        if sorted(bits) == list(range(16)) and all(o == bt + 1 for o, bt in zip(offs, bits)):
+            r.ok({"site": b.where(bi, si), "bits": "0..=15", "offsets": "bit+1"})
+        else:
+            r.violate(fn, "blp:coverage", b.where(bi, si),
+                      "the BLP loop visits bits %s with PID offsets %s: not all of bits 0..=15 paired with offsets 1..=16" % (bits, offs))
+    return r
+
+
 def run(ctx):
-    return [r15_1(ctx), r15_2(ctx), r15_3(ctx), r15_4(ctx)]
+    return [r15_1(ctx), r15_2(ctx), r15_3(ctx), r15_4(ctx), r15_5(ctx), r15_6(ctx)]
